@@ -26,6 +26,9 @@ How the statement of the property maps to the theorems:
 * "after stop() the runtime can be started again … with a different configuration":
   `C05_restart_fresh`, `C05_restart_config`, `C05_config_used`.
 * "while the runtime is suspended no task body executes": `C05_suspended_no_body`.
+* "stop() … on a runtime that is still suspended" (follow-up C05h): `C05_stop_suspended_enterable`,
+  `C05_stop_suspended_no_stuck`, `C05_stop_suspended_all_resumed`, `C05_wake_only_by_resume_or_stop`,
+  `C05_stop_suspended_pending_waits`.
 * "all queued work runs after resume()": `C05_resume_runs_queued` (after resume every worker is
   awake and can take any queued thread) together with `C05_wait_sound` / `C05_stop_after_finalize`
   (the next wait/stop returns only when that work is gone).
@@ -215,7 +218,7 @@ theorem C05_stop_result (s s' : St) (a r : Nat) (h : step s (.stopExit a r) = so
     r = s.result := by
   simp only [step] at h
   split at h
-  · rename_i hg; exact hg.2.2
+  · rename_i hg; exact hg.2.2.1
   · simp at h
 
 /-- … and `result_` is 0 when the runtime is constructed and is afterwards only ever written with
@@ -331,7 +334,7 @@ theorem C05_resume_runs_queued (s : St) (hr : Reachable s) (hrun : s.ph = .runni
     (∀ a o, s.worker a = true → s.cur a = none → s.live o = true → s.running o = false →
       (step s (.phaseBegin a o)).isSome = true) := by
   have hi := inv_of_reachable hr
-  have h0 := hi.awake (by rw [hrun]; simp) (by rw [hrun]; simp) (by rw [hrun]; simp)
+  have h0 := hi.awake (by rw [hrun]; simp) (by rw [hrun]; simp) (by rw [hrun]; simp) (by rw [hrun]; simp)
   rw [hi.nsleepSum] at h0
   have hall : ∀ a, s.asleep a = false := by
     intro a
@@ -355,6 +358,152 @@ theorem C05_resume_waits_for_all (s s' : St) (a : Nat) (h : step s (.rtState a r
   obtain ⟨_, _, h0, h⟩ := h
   subst h
   exact ⟨h0, rfl⟩
+
+/-! ## Follow-up C05h: `stop()` entered while the runtime is SUSPENDED
+
+`pika::stop()` only requires an initialised runtime and a caller that is not a pika task.  After
+`finalize()` (called while running) and `suspend()`, `stop()` finds every worker parked in
+`scheduler_base::suspend`; `runtime::wait` succeeds at once if the runtime was drained,
+`runtime::stopping` stores `stopped`, and the pool's `stop_locked` wakes the workers ("wake up if
+suspended": `resume_internal`) before joining them.  The statements are in enabledness /
+no-stuck-state form (the model has no fairness): at every program counter of the stopping thread
+the next event of the stop path is enabled, a parked worker's wake-up is enabled once
+`runtime::stopping` ran, and the return of `stop()` is enabled exactly when no worker is parked. -/
+
+/-- **stop() may be entered on a running or on a suspended runtime** (documented precondition:
+    initialised, caller not a pika task). -/
+theorem C05_stop_suspended_enterable (s : St) (a : Nat) (ha : a < s.na)
+    (hph : s.ph = .running ∨ s.ph = .suspended) (hst : s.stopper = none) (hspc : s.spc = .out)
+    (hc : s.cur a = none) (hw : s.worker a = false) :
+    ∃ s', step s (.stopEnter a) = some s' ∧ s'.stopper = some a ∧ s'.spc = .entered ∧ s'.ph = s.ph ∧
+      s'.nsleep = s.nsleep := by
+  refine ⟨{ s with stopper := some a, spc := .entered }, ?_, rfl, rfl, rfl, rfl⟩
+  simp [step, ha, hph, hst, hspc, hc, hw]
+
+/-- **stop() entered in the suspended phase is never stuck** (and neither is one entered while
+    running).  In every reachable state with thread `a` inside `pika::stop()`:
+    * after `finalize()` the return of `wait_finalize` is enabled;
+    * with `wait_finalize` passed and the counter at zero, the idle sample is enabled in phase
+      `running` *and* in phase `suspended`, it moves the runtime to `stopping` and leaves every
+      parked worker parked (no body can run: `C05_suspended_no_body`);
+    * then `runtime::wait`'s return with `result_` and `runtime::stopping` are enabled;
+    * once `runtime::stopping` ran, the wake-up of *every* parked worker is enabled, the return of
+      `stop()` with `result_` is enabled as soon as no worker is parked, and as long as the parked
+      count is not zero some parked worker exists (whose wake-up is enabled): no state on the stop
+      path is stuck. -/
+theorem C05_stop_suspended_no_stuck (s : St) (hr : Reachable s) (a : Nat) (hst : s.stopper = some a) :
+    (s.spc = .entered → s.fin = true → (step s (.waitFin a)).isSome = true) ∧
+    (s.spc = .waitedFin → s.cnt = 0 → (s.ph = .running ∨ s.ph = .suspended) →
+      ∃ s', step s (.sample a 0 0) = some s' ∧ s'.spc = .drained ∧ s'.ph = .stopping ∧
+        s'.nsleep = s.nsleep ∧ s'.asleep = s.asleep) ∧
+    (s.spc = .drained → (step s (.waited a s.result)).isSome = true) ∧
+    (s.spc = .waited → (step s (.rtState a rsStopped)).isSome = true) ∧
+    (s.spc = .halted →
+      (∀ b, s.asleep b = true → ∃ s', step s (.wake b) = some s' ∧ s'.nsleep + 1 = s.nsleep) ∧
+      (s.nsleep = 0 → (step s (.stopExit a s.result)).isSome = true) ∧
+      (s.nsleep ≠ 0 → ∃ b, s.asleep b = true)) := by
+  have hi := inv_of_reachable hr
+  have ha : a < s.na := hi.stopperBound a hst
+  have hnw : s.worker a = false := hi.stopperNotWorker a hst
+  have hcur : s.cur a = none := by
+    cases hc : s.cur a with
+    | none => rfl
+    | some o =>
+      have := (hi.curWorker a (by rw [hc]; rfl)).1
+      rw [hnw] at this; cases this
+  refine ⟨?_, ?_, ?_, ?_, ?_⟩
+  · intro hp hf
+    simp [step, hst, hp, hf]
+  · intro hp h0 hph
+    refine ⟨{ s with spc := .drained, ph := .stopping, lastRet := upd s.lastRet a true }, ?_, rfl, rfl, rfl, rfl⟩
+    simp [step, ha, h0, hcur, b2n, hst, hp, hph]
+  · intro hp
+    simp [step, hst, hp]
+  · intro hp
+    have hph : s.ph = .stopping := hi.stopPc.1 (Or.inr (Or.inl hp))
+    simp [step, ha, hph, hp, hst, rsStopped, rsInitialized, rsPreStartup, rsStartup, rsPreMain, rsRunning, rsSleeping]
+  · intro hp
+    have hph : s.ph = .stopping := hi.stopPc.1 (Or.inr (Or.inr hp))
+    refine ⟨?_, ?_, ?_⟩
+    · intro b hb
+      have hbb : b < s.na := hi.workerBound b (hi.asleepWorker b hb)
+      have hle := le_sumTo (f := fun u => b2n (s.asleep u)) hbb
+      simp only [hb] at hle
+      have hb1 : b2n true = 1 := rfl
+      have hns := hi.nsleepSum
+      refine ⟨{ s with asleep := upd s.asleep b false, nsleep := s.nsleep - 1 }, ?_, ?_⟩
+      · simp [step, hbb, hph, hp, hb]
+      · show s.nsleep - 1 + 1 = s.nsleep
+        omega
+    · intro h0
+      simp [step, hst, hp, h0]
+    · intro hne
+      have hpos : 0 < sumTo s.na (fun u => b2n (s.asleep u)) := by
+        rw [← hi.nsleepSum]; omega
+      obtain ⟨t, _, hp⟩ := exists_pos_of_sumTo_pos hpos
+      refine ⟨t, ?_⟩
+      cases hat : s.asleep t with
+      | true => rfl
+      | false => rw [hat] at hp; simp [b2n] at hp
+
+/-- **stop() returns only with the runtime drained and every worker resumed.**  When the model
+    accepts the return of `pika::stop()` — whether it was entered running or suspended — the counter
+    is zero, no unit of activity exists, finalize was signalled, and no worker is parked in
+    `scheduler_base::suspend` any more (each one that slept has logged its wake-up: the join in
+    `remove_processing_unit_internal` cannot complete for a parked worker). -/
+theorem C05_stop_suspended_all_resumed (s s' : St) (hr : Reachable s) (a r : Nat)
+    (h : step s (.stopExit a r) = some s') :
+    s.fin = true ∧ s.cnt = 0 ∧ DrainedExcept s none ∧ s.nsleep = 0 ∧ (∀ b, s.asleep b = false) := by
+  have hi := inv_of_reachable hr
+  obtain ⟨hf, h0, hd⟩ := C05_stop_after_finalize s s' hr a r h
+  simp only [step] at h
+  split at h
+  case isFalse => simp at h
+  rename_i hg
+  have hz : s.nsleep = 0 := hg.2.2.2
+  refine ⟨hf, h0, hd, hz, ?_⟩
+  intro b
+  cases hb : s.asleep b with
+  | false => rfl
+  | true =>
+    have hbb : b < s.na := hi.workerBound b (hi.asleepWorker b hb)
+    have hle := le_sumTo (f := fun u => b2n (s.asleep u)) hbb
+    simp only [hb] at hle
+    have hb1 : b2n true = 1 := rfl
+    have hns := hi.nsleepSum
+    omega
+
+/-- **A parked worker is woken only by resume() or by stop() after `runtime::stopping`.**  In
+    particular nothing wakes a worker while the phase is `suspended`, also not a `stop()` that is
+    still waiting for finalize or for the counter. -/
+theorem C05_wake_only_by_resume_or_stop (s s' : St) (b : Nat) (h : step s (.wake b) = some s') :
+    s.asleep b = true ∧ (s.ph = .resuming ∨ (s.ph = .stopping ∧ s.spc = .halted)) := by
+  simp only [step] at h
+  split at h
+  · rename_i hg; exact ⟨hg.2.2, hg.2.1⟩
+  · simp at h
+
+/-- **stop() on a suspended runtime that holds queued work keeps waiting** (what the unchanged code
+    does: `thread_manager::wait` polls the counter and "no progress will be made" while suspended).
+    A sample by the stopping thread that sees more than its own task leaves the stop program
+    counter, the phase, the counter and the parked workers unchanged; with `C05_suspended_no_body`
+    (no body or phase event is possible in phase `suspended`) the queued work is neither run nor
+    dropped, and `C05_stop_suspended_all_resumed` shows that `stop()` cannot return in between. -/
+theorem C05_stop_suspended_pending_waits (s s' : St) (a v self : Nat) (hst : s.stopper = some a)
+    (h : step s (.sample a v self) = some s') (hbusy : self < v) :
+    s'.spc = s.spc ∧ s'.ph = s.ph ∧ s'.cnt = s.cnt ∧ s'.nsleep = s.nsleep ∧ s'.live = s.live ∧
+      s'.staged = s.staged := by
+  simp only [step] at h
+  split at h
+  case isFalse => simp at h
+  simp only [hst] at h
+  split at h
+  · have hn : ¬ v ≤ self := by omega
+    simp only [hn, if_false] at h
+    simp only [Option.some.injEq] at h
+    subst h
+    exact ⟨rfl, rfl, rfl, rfl, rfl, rfl⟩
+  · simp at h
 
 /-! ## Non-vacuity: a complete history with two incarnations is accepted
 
@@ -391,6 +540,33 @@ def exampleLog : List Ev :=
     .fin 0, .stopEnter 0, .waitFin 0, .sample 0 0 0, .waited 0 0, .rtState 0 13, .stopExit 0 0 ]
 
 example : (runLog step (init 5 2) exampleLog).isSome = true := by decide
+
+/-- Follow-up C05h: finalize while running, suspend (twice: the second call has no event), `stop()`
+    entered while SUSPENDED; the workers wake only after `runtime::stopping`, then stop returns.
+    Actors: 0 main, 1,2 workers. -/
+def exampleStopSuspended : List Ev :=
+  [ .reqCfg 0 2 1, .rtState 0 0, .worker 1, .worker 2, .inc 0 1, .new 0 0, .phaseBegin 1 0, .rtState 1 5,
+    .result 1 9, .phaseEnd 1 0, .destroy 1 0, .dec 1 0, .seenCfg 0 2 1,
+    .fin 0, .suspendEnter 0, .sample 0 0 0, .sleep 1, .sleep 2, .rtState 0 8,
+    .waitEnter 0, .sample 0 0 0, .waitExit 0,                       -- wait() on the idle suspended runtime
+    .stopEnter 0, .waitFin 0, .sample 0 0 0, .waited 0 9, .rtState 0 13, .wake 2, .wake 1, .stopExit 0 9,
+    .reqCfg 0 1 2, .rtState 0 0 ]
+
+example : (runLog step (init 3 1) exampleStopSuspended).isSome = true := by decide
+
+/-- the seeded removal of "wake up if suspended" cannot return from stop(): with a worker still
+    parked the return of `stop()` is not a model history -/
+example : runLog step (init 3 1)
+    [ .reqCfg 0 2 1, .rtState 0 0, .worker 1, .worker 2, .inc 0 1, .new 0 0, .phaseBegin 1 0, .rtState 1 5,
+      .phaseEnd 1 0, .destroy 1 0, .dec 1 0, .fin 0, .suspendEnter 0, .sample 0 0 0, .sleep 1, .sleep 2,
+      .rtState 0 8, .stopEnter 0, .waitFin 0, .sample 0 0 0, .waited 0 0, .rtState 0 13, .wake 2,
+      .stopExit 0 0 ] = none := by decide
+
+/-- a worker does not wake while `stop()` on a suspended runtime is still before `runtime::stopping` -/
+example : runLog step (init 3 1)
+    [ .reqCfg 0 1 1, .rtState 0 0, .worker 1, .inc 0 1, .new 0 0, .phaseBegin 1 0, .rtState 1 5,
+      .phaseEnd 1 0, .destroy 1 0, .dec 1 0, .fin 0, .suspendEnter 0, .sample 0 0 0, .sleep 1,
+      .rtState 0 8, .stopEnter 0, .waitFin 0, .sample 0 0 0, .wake 1 ] = none := by decide
 
 /-- the seeded reordering (`thread_manager::wait` before `wait_finalize`) is not a model history -/
 example : runLog step (init 5 2)
